@@ -476,9 +476,47 @@ func executeB(t *testing.T, c CaseB) (kind, detail string, steps int) {
 			case ch == 's':
 				p.write(p.sW, p.sOut, pattern(0x80, sOff, 6))
 				sOff += 6
+			case ch == 'r' || ch == 'R':
+				// the application's reader gives up waiting: a Read with a deadline that passes
+				// (net.Conn contract); only meaningful when nothing is there to read
+				in := p.cIn
+				if ch == 'R' {
+					in = p.sIn
+				}
+				if !in.HasData() {
+					in.SetReadDeadline(time.Now().Add(time.Second))
+					var n int
+					var rerr error
+					done := make(chan struct{})
+					go func() { n, rerr = in.Read(make([]byte, 16)); close(done) }()
+					bubble.Advance(2 * time.Second)
+					select {
+					case <-done:
+						if n != 0 || rerr == nil {
+							kind, detail = "timed-out-read-returned-data", fmt.Sprintf("step %d: Read on an empty queue returned %d bytes, err=%v", i, n, rerr)
+							return
+						}
+					default:
+						kind, detail = "read-deadline-ignored", fmt.Sprintf("step %d: Read is still blocked one second after its deadline", i)
+						return
+					}
+					in.SetReadDeadline(time.Time{})
+				}
 			default:
-				if err := p.exchange(world.Fate(ch - '0')); err != nil {
-					kind, detail = "exchange-error|"+world.Fate(ch-'0').String(), fmt.Sprintf("step %d: the server refused a packet of the ongoing stream: %v", i, err)
+				// an exchange must not block: it only moves packets between queues
+				var xerr error
+				done := make(chan struct{})
+				f := world.Fate(ch - '0')
+				go func() { xerr = p.exchange(f); close(done) }()
+				bubble.Wait()
+				select {
+				case <-done:
+				default:
+					kind, detail = "exchange-blocked|"+f.String(), fmt.Sprintf("step %d: the exchange never finishes (a queue operation is blocked for good): client in %s / out %s; server in %s / out %s", i, p.cIn.VerifDump(), p.cOut.VerifDump(), p.sIn.VerifDump(), p.sOut.VerifDump())
+					return
+				}
+				if xerr != nil {
+					kind, detail = "exchange-error|"+f.String(), fmt.Sprintf("step %d: the server refused a packet of the ongoing stream: %v", i, xerr)
 					return
 				}
 			}
@@ -489,11 +527,20 @@ func executeB(t *testing.T, c CaseB) (kind, detail string, steps int) {
 			}
 		}
 		for i := 0; i < 64; i++ {
-			if err := p.exchange(world.Delivered); err != nil {
-				kind, detail = "exchange-error|closure", fmt.Sprintf("closure exchange %d: %v", i, err)
+			var xerr error
+			done := make(chan struct{})
+			go func() { xerr = p.exchange(world.Delivered); close(done) }()
+			bubble.Wait()
+			select {
+			case <-done:
+			default:
+				kind, detail = "exchange-blocked|closure", fmt.Sprintf("closure exchange %d never finishes (a queue operation is blocked for good)", i)
 				return
 			}
-			bubble.Wait()
+			if xerr != nil {
+				kind, detail = "exchange-error|closure", fmt.Sprintf("closure exchange %d: %v", i, xerr)
+				return
+			}
 			steps++
 		}
 		kind, detail = p.check("closure", true)
@@ -756,6 +803,29 @@ func TestCheck(t *testing.T) {
 				return
 			}
 			for _, ch := range alpha {
+				rec(prefix + string(ch))
+			}
+		}
+		rec("")
+	}
+	// Layer B (iv): readers that give up waiting (a Read whose deadline passes) anywhere in the
+	// sequence: all sequences up to the depth over a reduced alphabet + {r, R}
+	{
+		alphaR := "cs02rR"
+		var rec func(prefix string)
+		rec = func(prefix string) {
+			if strings.ContainsAny(prefix, "rR") {
+				if r.Mine(idx) {
+					c := CaseB{Layer: "B", Start: 65534, Ops: prefix}
+					k, d, s := executeB(t, c)
+					recB(c, k, d, s)
+				}
+				idx++
+			}
+			if len(prefix) == depth {
+				return
+			}
+			for _, ch := range alphaR {
 				rec(prefix + string(ch))
 			}
 		}
